@@ -417,6 +417,14 @@ def option_arms(fn, call):
         for bc in branch_calls:
             if any(o.kind == "call" and o.ref is bc and not o.proj for o in roots) and "ControlFlow" in en:
                 found.append((bi, si["arms"].get("Break"), si["arms"].get("Continue")))
+    # predicate form: `if call().is_err() {…}` / `.is_none()` / `.is_ok()` / `.is_some()` — a bool switch on the predicate's result
+    for c in fn.calls:
+        if c.name in ("is_err", "is_none", "is_ok", "is_some") and c.args and c.bb in fn.live_blocks and \
+                any(o.kind == "call" and o.ref is call and not [p for p in o.proj if p not in ("*", "&")] for o in fn.trace_operand(c.args[0])):
+            ba = bool_arms(fn, c)
+            if ba:
+                neg = c.name in ("is_err", "is_none")
+                found.append((c.bb, ba["true"] if neg else ba["false"], ba["false"] if neg else ba["true"]))
     first = [x for x in found if not any(y[0] != x[0] and fn.dominates(y[0], x[0]) for y in found)]
     return {"none": [x[1] for x in first if x[1] is not None], "some": [x[2] for x in first if x[2] is not None], "switches": len(first)}
 
